@@ -1,26 +1,35 @@
 """C19 — optimal costs scale with the architecture's cost parameters.
 
-Proof:  AFV/Props/C19.lean (scale_energy, scale_throughput, scale_instances on the cost model of AFV/Model/Nest.lean, and
-        front_scale: multiplying one coordinate of every point by k>0 maps Pareto fronts to Pareto fronts, so optima scale).
-Tie:    the real mapper is run on (spec, scaled spec) pairs: all per-action energies and leak powers ×k ⇒ optimal energy ×k;
-        all throughputs ×k ⇒ optimal latency ÷k; workload / Einsum n_instances ×n ⇒ optimal energy and latency ×n; the number of
-        returned front points (validity) must not change.  k ranges over powers of two and non-integers, including very
-        large/small ones that would expose magnitude-dependent sentinels in the Pareto filter.
+Proof:  AFV/Props/C19.lean  scale_energy, scale_throughput, scale_instances (about `analytic`, the proved model of
+                            evaluate_mapping, AFV/Model/Nest.lean — for every mapping it evaluates, no size bound), front_scale
+                            (multiplying coordinates by positive factors maps Pareto fronts to Pareto fronts ⇒ optima scale).
+Tie:    (A) model stream: evaluate_mapping on a generated mapping and on the same mapping with all energies+leak × k, all
+            throughputs × k, n_instances × k: the implementation's outputs must scale as the theorems say (energy × k,
+            latency ÷ k, totals × k; counts / usage / validity unchanged) and both evaluations must agree with Lean `analytic`;
+        (B) mapper stream: the real mapper is run on (spec, scaled spec) pairs: all per-action energies and leak powers ×k ⇒
+            optimal energy ×k; all throughputs ×k ⇒ optimal latency ÷k; workload / Einsum n_instances ×n ⇒ optimal energy and
+            latency ×n; the number of returned front points (validity) must not change.  k ranges over powers of two and
+            non-integers, including very large/small ones that would expose magnitude-dependent sentinels in the Pareto filter.
 """
 from __future__ import annotations
 
 import copy
 from fractions import Fraction
 
+import json
+
+from harness import nestlib as N
 from harness.core import Ctx
 from harness import mapperlib as ML
 
 ANCHORS = [
     "accelforge.model.run_model:run_model",
     "accelforge.model._looptree.energy:compute_energy_from_actions",
+    "accelforge.model._looptree.latency.memory:component_latency",
     "accelforge.mapper.FFM._pareto_df.fast_pareto:fast_pareto_mask",
 ]
 REL = 1e-4
+SEP = N.SEP
 KS = [Fraction(1, 1024), Fraction(3, 10), Fraction(3), Fraction(1 << 20), Fraction(10**9), Fraction(5, 2), Fraction(1, 7)]
 E_KEYS = ["mm_energy", "glb_energy", "lb_energy", "mac_energy", "glb_leak"]
 T_KEYS = ["mm_tp", "glb_tp", "lb_tp", "mac_tp"]
@@ -53,12 +62,129 @@ def work(job):
     return out
 
 
-def run(ctx: Ctx):
-    ctx.lean_gate()
-    ctx.anchors(ANCHORS)
-    ctx.cov["rule"] = ("seeded small specs × {energy×k, throughput×k, workload n_instances×n, Einsum n_instances×n}, k ∈ "
+
+def qmul(q, k: Fraction):
+    return N.frac2q(N.q2frac(q) * k)
+
+
+def scale_case(case, kind, k: Fraction):
+    c = copy.deepcopy(case)
+    if kind == "energy":
+        for lv in c["arch"]["levels"]:
+            lv["leak"] = qmul(lv["leak"], k)
+            lv["read"]["e"] = qmul(lv["read"]["e"], k)
+            lv["write"]["e"] = qmul(lv["write"]["e"], k)
+        c["arch"]["compute"]["e"] = qmul(c["arch"]["compute"]["e"], k)
+        c["arch"]["compute"]["leak"] = qmul(c["arch"]["compute"]["leak"], k)
+    elif kind == "throughput":
+        for lv in c["arch"]["levels"]:
+            lv["read"]["thr"] = qmul(lv["read"]["thr"], k)
+            lv["write"]["thr"] = qmul(lv["write"]["thr"], k)
+        c["arch"]["compute"]["thr"] = qmul(c["arch"]["compute"]["thr"], k)
+    else:
+        c["workload"]["ninst"] = qmul(c["workload"]["ninst"], k)
+    return c
+
+
+def expected_factor(col, kind, k: Fraction):
+    """Factor by which a run_model df column must change (None = must be identical)."""
+    head = col.split(SEP)[0]
+    if kind == "energy":
+        if head == "energy" or col in (f"Total{SEP}dynamic_energy", f"Total{SEP}leak_energy"):
+            return k
+        return Fraction(1)
+    if kind == "throughput":
+        if head == "latency" or col == f"Total{SEP}latency" or col.endswith(f"{SEP}leak") or col == f"Total{SEP}leak_energy":
+            return 1 / k
+        return Fraction(1)
+    # n_instances
+    if head in ("action", "energy", "latency", "Total"):
+        return k
+    return Fraction(1)
+
+
+def model_stream(ctx: Ctx):
+    ctx.cov["rule"] = (
+        "stream A: single-Einsum mappings of the C05 generator, each evaluated unscaled and with (energies+leak) × k, "
+        "throughputs × k, n_instances × k for k from {1/1024, 3/10, 3, 2^20, 10^9} (integers for n_instances); "
+        "non-trivial = a non-backing holder"
+    )
+    ctx.cov["tolerance"] = {"run_model df (float64), dyadic k and parameters": 0.0, "otherwise": 1e-9}
+    ctx.assumptions += [
+        "model-level theorems are about `analytic` (C05 fragment); the mapper-level statement (optimal costs scale) is "
+        "checked by correspondence on small specs, its proof needs the mapper-optimality properties (C01/C08/C11)",
+    ]
+    drv = ctx.driver()
+    rng = ctx.rng
+    reported = {}
+
+    def fail(key, what, payload):
+        reported[key] = reported.get(key, 0) + 1
+        ctx.cov["failing_cases_by_key"] = dict(reported)
+        if reported[key] > 1 or len(reported) > 6:
+            return
+        ctx.fail(key, what, payload)
+
+    KS = [Fraction(1, 1024), Fraction(3, 10), Fraction(3), Fraction(2 ** 20), Fraction(10 ** 9)]
+    n_a = 700 if ctx.thorough else 40
+    for i in range(n_a):
+        case = N.gen_case(rng, exact=True, toll_prob=0.2)
+        rep0 = drv.ask("C19", N.driver_req(case))
+        if not rep0.get("wf") or rep0["oversubscribed"]:
+            continue
+        base = N.run_impl(case)
+        if base.error is not None:
+            fail("impl-exception-" + base.error[0], f"evaluate_mapping raised {base.error[0]}", {"case": case, "error": base.error})
+            continue
+        d0 = N.compare_df(base.df, base.per_memory_usage, rep0["analytic"], case, 0.0)
+        d0 = [d for d in d0 if d[0].split(SEP)[0] not in ("usage", "reservation")]
+        for kind in ("energy", "throughput", "ninst"):
+            k = rng.choice(KS) if kind != "ninst" else Fraction(rng.choice([2, 3, 7]))
+            sc = scale_case(case, kind, k)
+            rep1 = drv.ask("C19", N.driver_req(sc))
+            run1 = N.run_impl(sc, yaml_path="case_scaled.yaml")
+            feats = N.case_features(case)
+            ctx.case({"mapping": case["mapping"], "bounds": case["workload"]["bounds"], "kind": kind, "k": str(k)},
+                     nontrivial="non-backing-holder" in feats, branches=["scale-" + kind])
+            ctx.dist(f"A-{kind}-k={k}")
+            if run1.error is not None:
+                fail(f"validity-changed-{kind}", f"scaling {kind} by {k} made evaluate_mapping raise {run1.error[0]}",
+                     {"case": case, "kind": kind, "k": str(k), "error": run1.error, "yaml": N.case_to_yaml(sc)})
+                continue
+            exact = N.is_pow2(k) or (kind != "throughput" and N.is_dyadic(k))
+            tol = 0.0 if exact else 1e-9
+            bad = None
+            for col, v0 in base.df.items():
+                if col.split(SEP)[0] not in ("action", "energy", "latency", "Total", "usage", "reservation"):
+                    continue
+                if col not in run1.df:
+                    bad = (col, str(v0), "missing")
+                    break
+                f = expected_factor(col, kind, k)
+                want = N.py2frac(v0) * f
+                got = N.py2frac(run1.df[col])
+                if not N.close(got, want, tol):
+                    bad = (col, str(got), str(want))
+                    break
+            if bad:
+                fail(f"scale-{kind}-{bad[0].split(SEP)[0]}",
+                     f"{kind} × {k}: column {bad[0]} is {bad[1]}, expected {bad[2]}",
+                     {"case": case, "kind": kind, "k": str(k), "column": bad[0], "got": bad[1], "want": bad[2],
+                      "yaml": N.case_to_yaml(case), "yaml_scaled": N.case_to_yaml(sc)})
+                continue
+            # model agreement on the scaled input (ties `analytic` to the code on both sides of the theorem)
+            d1 = N.compare_df(run1.df, run1.per_memory_usage, rep1["analytic"], sc, tol)
+            d1 = [d for d in d1 if d[0].split(SEP)[0] not in ("usage", "reservation")]
+            if (d0 or d1) and ctx.n_violations() == 0 and "model-drift" not in reported:
+                reported["model-drift"] = 1
+                ctx.broken("the Lean model `analytic` no longer reproduces run_model on a C19 case", {"case": case, "diffs": (d0 or d1)[:8]})
+
+
+
+def mapper_stream(ctx: Ctx):
+    ctx.cov["rule"] += (" || mapper stream: ""seeded small specs × {energy×k, throughput×k, workload n_instances×n, Einsum n_instances×n}, k ∈ "
                        "{2^-10, 0.3, 1/7, 2.5, 3, 2^20, 1e9}, n ∈ {2,3,7}; non-trivial = base spec has a mapping and a front with ≥ 2 points")
-    ctx.cov["tolerance"] = REL
+    ctx.cov["tolerance"]["mapper optimum (float32 tables)"] = REL
     ctx.assumptions += ["float32 accumulation: scaled optimum compared with relative tolerance %g" % REL]
     n = 40 if ctx.thorough else 10
     jobs = []
@@ -105,3 +231,10 @@ def run(ctx: Ctx):
             ctx.fail(f"latency-not-scaled:{kind}", f"optimal latency did not scale by {kL}", rep)
         if kE is not None and len(base["EL"]["rows"]) != len(sc["EL"]["rows"]):
             ctx.fail(f"front-size-changed:{kind}", "the energy-latency front has a different number of points after scaling", rep)
+
+
+def run(ctx: Ctx):
+    ctx.lean_gate()
+    ctx.anchors(ANCHORS)
+    model_stream(ctx)
+    mapper_stream(ctx)
